@@ -37,7 +37,61 @@ typedef struct {
 	size_t      maxsz;
 	uint64_t    key;
 	const char *plan;
+	int         wsfrag;  // ws only: NNG_OPT_WS_SENDMAXFRAME on both ends (0 = default)
+	bool        use_aio; // aio forms of send / receive instead of the blocking ones
 } casecfg;
+
+// ws with a small fragment size: the endpoints are made by hand so that the
+// option can be set before they start
+static int
+connect_ws_frag(nng_socket lsock, nng_socket dsock, size_t frag)
+{
+	char         url[128], durl[128];
+	nng_listener l;
+	nng_dialer   d;
+	int          rv;
+	vf_url(VF_T_WS, url, sizeof(url));
+	if ((rv = nng_listener_create(&l, lsock, url)) != 0) return rv;
+	if ((rv = nng_listener_set_size(l, NNG_OPT_WS_SENDMAXFRAME, frag)) != 0) vf_harness_fail("listener %s: %s", NNG_OPT_WS_SENDMAXFRAME, nng_strerror(rv));
+	if ((rv = nng_listener_start(l, 0)) != 0) return rv;
+	if ((rv = vf_dial_url(l, VF_T_WS, url, durl, sizeof(durl))) != 0) return rv;
+	if ((rv = nng_dialer_create(&d, dsock, durl)) != 0) return rv;
+	if ((rv = nng_dialer_set_size(d, NNG_OPT_WS_SENDMAXFRAME, frag)) != 0) vf_harness_fail("dialer %s: %s", NNG_OPT_WS_SENDMAXFRAME, nng_strerror(rv));
+	if ((rv = nng_dialer_start(d, 0)) != 0) return rv;
+	for (int i = 0; vf_pipe_count(lsock) < 1 || vf_pipe_count(dsock) < 1; i++) {
+		if (i > 10000) return NNG_ETIMEDOUT;
+		vf_msleep(1);
+	}
+	return 0;
+}
+
+static int
+send_one(nng_socket s, nng_msg *m, bool use_aio, nng_aio *aio)
+{
+	if (!use_aio) return nng_sendmsg(s, m, 0);
+	nng_aio_set_msg(aio, m);
+	nng_aio_set_timeout(aio, 10000);
+	nng_socket_send(s, aio);
+	nng_aio_wait(aio);
+	int rv = (int) nng_aio_result(aio);
+	if (rv != 0) nng_aio_set_msg(aio, NULL); // caller frees m
+	return rv;
+}
+
+static int
+recv_one(nng_socket s, nng_msg **mp, bool use_aio, nng_aio *aio)
+{
+	if (!use_aio) return nng_recvmsg(s, mp, 0);
+	nng_aio_set_timeout(aio, 10000);
+	nng_socket_recv(s, aio);
+	nng_aio_wait(aio);
+	int rv = (int) nng_aio_result(aio);
+	if (rv == 0) {
+		*mp = nng_aio_get_msg(aio);
+		nng_aio_set_msg(aio, NULL);
+	}
+	return rv;
+}
 
 #define MAXHDR 64
 typedef struct {
@@ -173,7 +227,10 @@ run_case(long idx, const casecfg *c)
 	expect          ex[8];
 	bool            ok = true;
 
-	vf_case_begin(idx, "tran=%s pair=%s plan=%s n=%d max=%zu key=%llx", vf_tran_names[c->tran], pd->name, c->plan, c->nmsgs, c->maxsz, (unsigned long long) c->key);
+	nng_aio        *aio = NULL;
+
+	vf_case_begin(idx, "tran=%s pair=%s plan=%s n=%d max=%zu wsfrag=%d aio=%d key=%llx", vf_tran_names[c->tran], pd->name, c->plan, c->nmsgs, c->maxsz, c->wsfrag, c->use_aio, (unsigned long long) c->key);
+	if (c->use_aio && nng_aio_alloc(&aio, NULL, NULL) != 0) vf_harness_fail("aio alloc");
 	vf_io_plan(VF_IO_FULL, 0, VF_IO_FULL, 0, c->key);
 	vf_io_eagain_every(0);
 	if (pd->open_a(&a) != 0 || pd->open_b(&b) != 0) vf_harness_fail("open");
@@ -201,10 +258,11 @@ run_case(long idx, const casecfg *c)
 	vf_io_plan(c->smode, c->sparam, c->rmode, c->rparam, c->key);
 	vf_io_eagain_every(c->eagain);
 	// listener on the receiving side b for one-way protocols
-	if ((rv = vf_connect(b, a, c->tran)) != 0) {
+	if ((rv = (c->tran == VF_T_WS && c->wsfrag > 0) ? connect_ws_frag(b, a, (size_t) c->wsfrag) : vf_connect(b, a, c->tran)) != 0) {
 		vf_io_plan(VF_IO_FULL, 0, VF_IO_FULL, 0, 0);
 		vf_violation("C01/connect", "connect over %s with plan %s failed: %s", vf_tran_names[c->tran], c->plan, nng_strerror(rv));
 		nng_socket_close(a); nng_socket_close(b);
+		if (aio) nng_aio_free(aio);
 		return;
 	}
 	if (!strcmp(pd->name, "pubsub")) vf_msleep(20);
@@ -217,7 +275,8 @@ run_case(long idx, const casecfg *c)
 			nng_socket tx = dir == 0 ? a : b, rx = dir == 0 ? b : a;
 			for (int j = 0; j < n; j++) {
 				nng_msg *m = make_msg(c, dir, base + j, &ex[j], route);
-				if ((rv = nng_sendmsg(tx, m, 0)) != 0) {
+				if (c->wsfrag > 0 && nng_msg_len(m) + nng_msg_header_len(m) > (size_t) c->wsfrag) vf_stat("ws_fragmented_msgs", 1);
+				if ((rv = send_one(tx, m, c->use_aio, aio)) != 0) {
 					nng_msg_free(m);
 					vf_violation("C01/send-failed", "%s/%s dir=%d msg=%d plan=%s: send: %s", vf_tran_names[c->tran], pd->name, dir, base + j, c->plan, nng_strerror(rv));
 					ok = false;
@@ -227,25 +286,34 @@ run_case(long idx, const casecfg *c)
 			}
 			for (int j = 0; j < n && ok; j++) {
 				nng_msg *m = NULL;
-				if ((rv = nng_recvmsg(rx, &m, 0)) != 0) {
+				if ((rv = recv_one(rx, &m, c->use_aio, aio)) != 0) {
 					vf_violation("C01/lost", "%s/%s dir=%d msg=%d plan=%s size=%zu: receive: %s", vf_tran_names[c->tran], pd->name, dir, base + j, c->plan, ex[j].blen, nng_strerror(rv));
 					ok = false;
 					break;
 				}
 				ok = check_msg(c, dir, base + j, m, &ex[j], &route);
 				nng_msg_free(m);
-				if (ok) vf_stat("verified", 1);
+				if (ok) {
+					char k[40];
+					vf_stat("verified", 1);
+					snprintf(k, sizeof(k), "verified_%s", vf_tran_names[c->tran]);
+					vf_stat(k, 1);
+					if (c->use_aio) vf_stat("verified_aio_form", 1);
+				}
 			}
 		}
 		if (!strcmp(pd->name, "pubsub")) window = 1;
 	}
 	if (ok) {
-		// nothing extra may arrive
+		// nothing extra may arrive, on either side, once everything that
+		// is in flight has been processed
 		nng_msg *m = NULL;
-		if (nng_recvmsg(b, &m, NNG_FLAG_NONBLOCK) == 0) {
+		vf_quiesce(1, 200);
+		if (nng_recvmsg(b, &m, NNG_FLAG_NONBLOCK) == 0 || (pd->bidir && nng_recvmsg(a, &m, NNG_FLAG_NONBLOCK) == 0)) {
 			vf_violation("C01/extra-message", "%s/%s plan=%s: unexpected extra message of %zu bytes", vf_tran_names[c->tran], pd->name, c->plan, nng_msg_len(m));
 			nng_msg_free(m);
 		}
+		vf_stat("extra_probes", 1);
 	}
 	long ds = vf_io_short_sends() - ss0, dr = vf_io_short_recvs() - sr0;
 	vf_stat("short_sends", ds);
@@ -255,6 +323,7 @@ run_case(long idx, const casecfg *c)
 	vf_io_eagain_every(0);
 	nng_socket_close(a);
 	nng_socket_close(b);
+	if (aio) nng_aio_free(aio);
 	vf_stat("cases", 1);
 	vf_watchdog(120);
 	// allocator balance: per case in sampled mode, every 64 cases otherwise
@@ -281,10 +350,14 @@ main(int argc, char **argv)
 		static const int trans[] = { VF_T_TCP, VF_T_IPC, VF_T_SOCKFD, VF_T_WS };
 		for (int ti = 0; ti < 4; ti++) {
 			int t = trans[ti];
-			int maxoff = t == VF_T_WS ? (thorough ? 700 : 0) : 90;
+			// ws: HTTP upgrade (about 130-330) plus three small frames;
+			// quick walks that stretch for one pair, thorough everything
+			int minoff = (t == VF_T_WS && !thorough) ? 130 : 1;
+			int maxoff = t == VF_T_WS ? (thorough ? 700 : 430) : 120;
 			for (int p = 0; p < NPAIRS - 1; p++) {
+				if (t == VF_T_WS && !thorough && p != 1) continue;
 				for (int side = 0; side < 2; side++) {
-					for (int off = 1; off <= maxoff; off++, idx++) {
+					for (int off = minoff; off <= maxoff; off++, idx++) {
 						if ((idx % vf_nshards) != vf_shard || !vf_want_case(idx)) continue;
 						casecfg c = { .tran = t, .pair = p, .nmsgs = 3, .maxsz = 20, .key = vf_mix64(vf_seed ^ (uint64_t) idx) };
 						c.smode = side == 0 ? VF_IO_CUT_ONCE : VF_IO_FULL;
@@ -320,6 +393,12 @@ main(int argc, char **argv)
 			default: c.smode = VF_IO_FULL; c.rmode = VF_IO_DRIBBLE; c.rparam = vf_range(&r, 1, 9); c.plan = "recv-dribble"; c.maxsz = c.maxsz > 5000 ? 5000 : c.maxsz; break;
 			}
 			if (vf_chance(&r, 1, 5) && c.smode != VF_IO_FULL) { c.eagain = (int) vf_range(&r, 3, 9); }
+			if (c.tran == VF_T_WS && vf_chance(&r, 2, 3)) {
+				static const int frags[] = { 1, 2, 16, 125, 126, 127, 1000 };
+				c.wsfrag = frags[vf_below(&r, 7)];
+				if (c.wsfrag <= 16 && c.maxsz > 3000) c.maxsz = 3000;
+			}
+			c.use_aio = vf_chance(&r, 1, 3);
 			run_case(idx, &c);
 			if ((idx & 31) == 0) vf_sample("{\"tran\":\"%s\",\"pair\":\"%s\",\"plan\":\"%s\",\"msgs\":%d,\"maxsize\":%zu,\"eagain_every\":%d}", vf_tran_names[c.tran], pairs[c.pair].name, c.plan, c.nmsgs, c.maxsz, c.eagain);
 		}
